@@ -2,10 +2,7 @@
 //! zv: correspondence + oracle harness for the zipora verification (see /verif/DESIGN.md).
 //! usage: zv <property> --seed N --tier quick|thorough --out DIR [--replay FILE]
 mod util;
-mod c04;
-mod c09;
-mod c13;
-mod c20;
+include!(concat!(env!("OUT_DIR"), "/dispatch.rs"));
 
 use util::Args;
 
@@ -29,11 +26,8 @@ fn main() {
     }
     std::fs::create_dir_all(&args.out).unwrap();
     util::quiet_panics();
-    match prop.as_str() {
-        "C04" => c04::run(&args),
-        "C09" => c09::run(&args),
-        "C13" => c13::run(&args),
-        "C20" => c20::run(&args),
-        _ => { eprintln!("unknown property {}", prop); std::process::exit(2); }
+    if !dispatch(prop.as_str(), &args) {
+        eprintln!("unknown property {}", prop);
+        std::process::exit(2);
     }
 }
